@@ -513,7 +513,10 @@ func scase(r *rng.R, i int, o *out.W) {
 		subS = cq.List(sps)
 	}
 	if math.IsNaN(L) || math.IsInf(L, 0) {
-		msg, L = "non-finite Length", 0
+		if msg == "" {
+			msg = "non-finite Length"
+		}
+		L = 0
 	}
 	term := fmt.Sprintf("CS (mkS (1 # 1073741824) %s %s %s %s %s %s %s)", cq.List(inS), cq.F(L), cq.Floats(ts), cq.List(pcS),
 		cq.Bool(b.axis), subS, cq.Bool(msg != ""))
